@@ -403,7 +403,9 @@ class Simplifier(walkers.dag.DagWalker):
             if right.constant_value() < 0:
                 value = -right.constant_value()
                 fnode_constant_values = self._number_to_fnode(value)
-                return self.manager.Plus(left, fnode_constant_values)
+                # go through walk_plus so that the sum is flattened and its constants
+                # folded (otherwise simplifying the result again would change it)
+                return self.walk_plus(expression, [left, fnode_constant_values])
             else:
                 return self.manager.Minus(left, right)
         else:
